@@ -83,11 +83,11 @@ class rule_021(blank_line.Rule):
             oViolation.set_tokens(lNewTokens)
         elif self.style == "require_blank_line":
             if isinstance(lTokens[-2], parser.whitespace):
-                rules_utils.insert_blank_line(lTokens, -3)
-                rules_utils.insert_carriage_return(lTokens, -3)
-            else:
-                rules_utils.insert_blank_line(lTokens, -2)
                 rules_utils.insert_carriage_return(lTokens, -2)
+                rules_utils.insert_blank_line(lTokens, -3)
+            else:
+                rules_utils.insert_carriage_return(lTokens, -1)
+                rules_utils.insert_blank_line(lTokens, -2)
 
             oViolation.set_tokens(lTokens)
 
